@@ -912,6 +912,13 @@ def tetra_templates(ctx):
                 bonds = [(c, nb[i], 1) if rng.random() < 0.5 else (nb[i], c, 1) for i in perm]
                 for s in (True, False):
                     m = build(atoms, bonds)
+                    if c not in m.stereogenic_tetrahedrons:
+                        # a carbon with 3 or 4 distinct heavy neighbours must be listed (docstring of stereogenic_tetrahedrons)
+                        ctx.broke('relational', 'template-centre-not-in-stereogenic_tetrahedrons', f'{kind} {atoms} {bonds}')
+                        ctx.fail('C20/T/centre-not-stereogenic', f'template centre ({kind}) is not in stereogenic_tetrahedrons: its '
+                                 'configuration cannot be transferred', {'judge': 'any', 'smiles': 'F[C@H](Cl)Br' if kind != '4heavy'
+                                                                         else 'F[C@](Cl)(Br)I', 'seed': ctx.seed})
+                        return out
                     order = m.stereogenic_tetrahedrons[c]
                     m._atoms[c]._stereo = s
                     sym = {n: ('[H]' if x == 'H' else x) for n, x in atoms}
@@ -1050,10 +1057,43 @@ def exhaustive(ctx, s_env, s_to, s_from):
         if x:
             bad += x
         report(ctx, 'S', 'spelling', smi, bad)
+    # tags on centres that are not stereogenic (unsanitised RDKit input keeps them): `from` must not carry them over
+    for smi in NONSTEREO:
+        bad = judge_N(smi)
+        if bad is None:
+            continue
+        ctx.count(('N', smi))
+        ctx.dist('nonstereogenic:judged')
+        report(ctx, 'N', 'nonstereogenic', smi, bad)
     if not ctx.quick:
         ctx.exhaustive = True
 
 
+def judge_N(smi):
+    """an unsanitised RDKit molecule keeps chiral tags on centres that are not stereogenic; `from` must not carry them over."""
+    from rdkit import Chem
+    pr = Chem.SmilesParserParams()
+    pr.removeHs = False
+    pr.sanitize = False
+    rd = Chem.MolFromSmiles(smi, pr)
+    if rd is None:
+        return None
+    rd.UpdatePropertyCache(strict=False)
+    try:
+        back = real_from(rd)[0]
+        ref = parse(smi)
+        left = [n for n, a in back._atoms.items() if a._stereo is not None] + \
+               [(n, m) for n, m, b in back.bonds() if b._stereo is not None]
+        if left:
+            return [('label-on-non-stereogenic-centre', f'from(unsanitised RDKit molecule) keeps labels on {left}')]
+        if ref is not None and str(norm(back)) != str(norm(ref)):
+            return [('from-vs-chython-reader', f'{norm(back)} != {norm(ref)}')]
+    except Exception as e:
+        return [('raises', f'{type(e).__name__}: {str(e)[:100]}')]
+    return []
+
+
+NONSTEREO = ['C[C@H](C)O', 'C[C@](C)(C)O', 'C[C@@H](C)C', 'F[C@](F)(Cl)Br', 'O[C@H]1CCCCC1', 'C[C@@](C)(O)C[C@@](C)(C)N', '[C@H](C)(C)C']
 EDGE_RD = ['*C', '[99CH4]', '[Fe+5]', '[Fe-5]', 'C$C', 'C~C', '[NH3]->[Cu]', '[Cu]<-[NH3]', '[CH2]', '[CH]', '[C]', '[O]', 'C[S@](=O)CC',
            'C[P@](=O)(O)CC', 'C[N@+](CC)(CCC)CCCC', '[2H][C@H](F)Cl', '[H][C@H](F)Cl', 'C[Si@H](F)Cl', 'F[P@](Cl)(Br)(I)(C)C',
            'C[C@H](F)[O-]', 'C[C@@H]([CH2])F', 'C/C=C/C', 'C/C=C=C=C/C', 'CC=[C@]=CC', 'F/C=C/F', 'C/C=[N+](/C)[O-]', 'C/C=[O+]/C',
@@ -1225,6 +1265,9 @@ def probe(inp):
             pass
     found = []
     mol = parse(smi)
+    if inp.get('judge') == 'N':
+        bad = judge_N(smi) or []
+        return bool(bad), (f'{bad[0]}' if bad else f'no label is left on a non-stereogenic centre of {smi}')
     if inp.get('judge') not in ('A', 'B', 'X'):
         inp = dict(inp, judge='any')
     if mol is not None and inp.get('judge', 'A') in ('A', 'any'):
